@@ -338,6 +338,10 @@ def r_base_store(ctx):
         silent_skip = [g for g in gs if not any(is_app(g, "not") and g[2] in ev.guards for ev in raises)]
         # a conditional return of this very method (returns of inlined helpers are values, not exits of the method)
         returns_early = [ev for ev in r.events_of("return") if ev.site.func.endswith("NamedUIDObject.append_z3_assertion") and ev.guards]
+        # a return that follows the append under the append's own conditions leaves nothing out
+        order = {id(ev): i for i, ev in enumerate(r.events)}
+        returns_early = [ev for ev in returns_early
+                         if not (apps and set(apps[0].guards) <= set(ev.guards) and order[id(ev)] > order[id(apps[0])])]
         if ok and not silent_skip and not returns_early:
             ctx.ok("R-BASE-STORE", f"{where}: the assertion is appended on every non-raising path")
         else:
